@@ -40,9 +40,11 @@ reg("C03", "proof",
     "winner-takes-all: argmin_split / argmax_split proved for every image size against 'disparity of the first extremum' "
     "(block loops over np.array_split chunks, invariants on y_begin/x_begin), np.argmin/np.argmax/array_split as assumed "
     "contracts; to_disp itself proved over symbolic datasets (vectorised numpy layer): NaN costs substituted by +-inf and "
-    "restored, a pixel with a computable cost gets the sampled disparity of the first best non-NaN cost, an all-NaN pixel gets "
+    "restored, a pixel with a computable cost gets disp[argmin/argmax of ITS OWN cost line with NaN read as +-inf] (functional "
+    "clause over a ghost volume: the first best computable cost), an all-NaN pixel gets "
     "exactly invalid_disparity, cost volume values unchanged on return, validity mask / confidence / interval carried over.",
     trusted=["assumed contract: np.argmin/np.argmax return the first index of the extremum of a NaN-free axis",
+             "assumed contract: np.argmin/np.argmax of a line is a function of the line's contents (two arrays that agree on a line have the same first extremum there)",
              "assumed contract: np.array_split(a, np.arange(c, n, c), axis) yields the views a[j*c : min((j+1)*c, n)]"])
 reg("C14", "proof",
     "occlusion/mismatch filling: find_valid_neighbors (first valid pixel along each of the 8 directions, every path loop "
